@@ -46,7 +46,7 @@ RULE = ("ids over absent/null/''/0/negative/fractional/strings/booleans/arrays/o
 
 
 def run(ctx):
-    em = {"translated": 0.5, "structid": 1, "malformed": 0.05, "single": 1, "batch": 2.5, "damaged": 0.2, "descriptor": 0.8, "noise": 0.3, "pool": 0.6, "randreg": 0.4, "post": 0.02,
+    em = {"names": 0.6, "longbody": 0.3, "translated": 0.5, "structid": 1, "malformed": 0.05, "single": 1, "batch": 2.5, "damaged": 0.2, "descriptor": 0.8, "noise": 0.3, "pool": 0.6, "randreg": 0.4, "post": 0.02,
           "exhaustive_batch": True, "baseexc": 0.5, "baseexc_calls": 1.0}
     sc.standard_run(ctx, "C03", MONITORS, sc.proj_ids, em, RULE)
 
